@@ -21,6 +21,10 @@ def _regression_tasks(prop_id):
             doc = json.load(fh)
         case = doc["case"]
         tasks.append({"engine": "replay", "case": case, "assertions": int(case.get("assertions", 0)) if isinstance(case, dict) else 0, "file": os.path.relpath(path, core.ROOT)})
+    # the reproducer of every open known finding is executed too, so that the finding is reported by every tier
+    for finding in core.open_findings(prop_id).values():
+        if isinstance(finding.get("repro"), dict):
+            tasks.append({"engine": "replay", "case": finding["repro"], "assertions": 0, "file": "known_findings.json#%s" % finding["id"]})
     return tasks
 
 
